@@ -32,7 +32,7 @@ def plan(tier, seed):
     return [{"shard": i, "nshards": NSHARDS, "exh_len": 3 if q else 4, "nrand": 150 if q else 5000} for i in range(NSHARDS)]
 
 
-async def run_case(acc, clock, slots, prior, req, state, cid):
+async def run_case(acc, clock, slots, prior, req, state, cid, concur=None):
     """slots: list of kinds; prior: None | "cover" | "partial"; req: (begin_spec, end_spec); state: "active" | "awaiting" """
     from asyncfix import FIXMessage, Journaler
     from asyncfix.connection import ConnectionRole, ConnectionState
@@ -124,7 +124,28 @@ async def run_case(acc, clock, slots, prior, req, state, cid):
         w.update({"begin": begin, "end": end, "last": last, "journal_before": {k: fixwire.show(v)[:120] for k, v in before.items()}})
         tap0 = len(ep.vf_tap)
         exc0 = len(ep.vf_log.exceptions)
+        conc = {"n": 0, "sent": 0, "err": None}
+        if concur is not None:
+            # another task of the application sends a new message while the reply is suspended in the drain() of its concur-th frame
+            import asyncio
+
+            async def live():
+                try:
+                    await ep.send_msg(FIXMessage("D", {11: "live1", 55: "X"}))
+                    conc["sent"] += 1
+                except Exception as e:        # refused while the reply is written: the application's business
+                    conc["err"] = repr(e)
+
+            async def drain_hook():
+                conc["n"] += 1
+                if conc["n"] == concur:
+                    asyncio.get_running_loop().create_task(live())
+                    await asyncio.sleep(0)
+            ep.vf_writer.drain_hook = drain_hook
+            w["concurrent_send_at_drain"] = concur
         await feed(peer.frame("2", None, [(7, begin), (16, end)]))
+        ep.vf_writer.drain_hook = None
+        w["concurrent_send"] = dict(conc)
         reply = E.parse_tap(ep.vf_tap.frames(tap0))
         w["reply"] = [fixwire.show(b)[:140] for b in ep.vf_tap.frames(tap0)]
         w["swallowed"] = ep.vf_log.exceptions[exc0:][:3]
@@ -174,6 +195,10 @@ async def run_case(acc, clock, slots, prior, req, state, cid):
                     V("chain:unparseable-frame", str(fr)); ok = False; break
                 mt = fixwire.get(fr, 35)
                 n = int(fixwire.get(fr, 34))
+                if conc["sent"] and mt == "D" and fixwire.get(fr, 11) == "live1" and fixwire.get(fr, 43) != "Y":
+                    if n != out0:
+                        V("chain:concurrent-new-message-misnumbered", f"the message sent during the reply carries {n}, next number was {out0}"); ok = False; break
+                    continue            # the live frame of the concurrent sender: not part of the reply
                 if n != c:
                     V("chain:not-contiguous", f"frame numbered {n} where {c} was due"); ok = False; break
                 if mt == "4":
@@ -216,7 +241,7 @@ async def run_case(acc, clock, slots, prior, req, state, cid):
             live, stored = ep._session.next_num_out, j.create_or_load("PEER", "ME").next_num_out
             # (a stored counter that lagged behind the live one before the request - number consumed by a failed drain -
             #  may catch up; that is not an effect of the request the statement forbids)
-            if live != out0 or stored not in (stored0, out0):
+            if live != out0 + conc["sent"] or stored not in (stored0, out0, out0 + conc["sent"]):
                 V("effects:next-outbound-number-changed", f"live {out0}->{live} stored {stored0}->{stored}")
                 ok = False
         if ok and ep.connection_state != st0:
@@ -233,6 +258,8 @@ async def run_case(acc, clock, slots, prior, req, state, cid):
         if ok and E.task_failure(ep) is not None:
             V("reader-task-died", repr(E.task_failure(ep)))
         napp = sum(1 for q in inrange if must_retransmit(q))
+        if conc["sent"]:
+            acc.add("replies_with_a_concurrent_new_message")
         return feat, (napp >= 1 and len(inrange) - napp >= 1), invalid
     except SpinAbort as e:
         acc.violation("reader-spins", str(e), w, cid)
@@ -284,7 +311,8 @@ def run_shard(spec, acc):
             rnd = random.Random(f"{spec['seed']}:C06:{shard}:{c}")
             slots = [rnd.choice(KINDS + ["app", "app"]) for _ in range(rnd.randrange(2, 10))]
             prior = rnd.choice([None, None, "cover", "partial"])
-            r = await run_case(acc, clock, slots, prior, (rnd.choice(BEGINS), rnd.choice(ENDS)), rnd.choice(["active", "awaiting"]), cid)
+            concur = rnd.choice([None, None, 1, 1, 2, 3])
+            r = await run_case(acc, clock, slots, prior, (rnd.choice(BEGINS + ["1", "mid"]), rnd.choice(ENDS + ["0", "0"])), rnd.choice(["active", "awaiting"]), cid, concur)
             if r is None:
                 continue
             acc.case((tuple(slots), prior, cid.split(":")[0]), nontrivial=r[1])
